@@ -67,6 +67,7 @@ INFO = {
         'ticket wrap-around at 2**32 is out of reach of a simulated session and is not exercised',
     ],
 }
+INFO['rule'] += ' Later additions: (25 %) an application listener that is slow while a peer connection closes; a result is also judged at the instant it is reported.'
 
 # The verdict needs one full collection per run ("exception never retrieved" of tasks caught in
 # cycles).  A full collection walks every tracked object, most of which are import-time objects
